@@ -283,6 +283,39 @@ func StructBuilder(env *Zlisp, name string,
 
 	structName := symN.name
 
+	// A declaration that fails further down must not take an earlier
+	// declaration of the same name with it: the placeholder below
+	// replaces the registry entry and the binding at once.
+	declared := false
+	oldReg, hadReg := GoStructRegistry.Registry[structName]
+	oldUser, hadUser := GoStructRegistry.Userdef[structName]
+	var oldBound Sexp
+	hadBound := false
+	if !env.linearstack.IsEmpty() {
+		if top, isScope := env.linearstack.elements[env.linearstack.tos].(*Scope); isScope {
+			oldBound, hadBound = top.Map[symN.number]
+		}
+	}
+	defer func() {
+		if declared {
+			return
+		}
+		if hadReg {
+			GoStructRegistry.Registry[structName] = oldReg
+		} else {
+			delete(GoStructRegistry.Registry, structName)
+		}
+		if hadUser {
+			GoStructRegistry.Userdef[structName] = oldUser
+		} else {
+			delete(GoStructRegistry.Userdef, structName)
+		}
+		env.linearstack.DeleteSymbolFromTopOfStackScope(symN)
+		if hadBound {
+			env.LexicalBindSymbol(symN, oldBound)
+		}
+	}()
+
 	{
 		// begin enable recursion -- add ourselves to the env early, then
 		// update later, so that structs can refer to themselves.
@@ -387,6 +420,7 @@ func StructBuilder(env *Zlisp, name string,
 			structName, err)
 	}
 	//Q("good: bound symbol '%s' to RegisteredType '%s'", symN.SexpString(nil), rt.SexpString(nil))
+	declared = true
 	return rt, nil
 }
 
